@@ -140,7 +140,7 @@ def close(a, b, scale=1):
     return abs(a - b) <= TOL * max(abs(a), abs(b), scale)
 
 
-def compare(g, md, rd, fresh_real, loose=False):
+def compare(g, md, rd, fresh_real, loose=False, old_cmap=None):
     """returns (list of differences, node map model->real, column map model->real, floating?)"""
     diffs = []
 
@@ -263,8 +263,11 @@ def compare(g, md, rd, fresh_real, loose=False):
         if md['bcons'] != rd['bcons']:
             diff('block_connection_name_list', md['bcons'][:4], rd['bcons'][:4])
     else:
+        allc = dict(old_cmap or {})       # stale name lists may still mention columns deleted since
+        allc.update(cmap)
+
         def split(b):
-            return (g.layer_name(b), cmap.get(g.column_name(b), g.column_name(b)))
+            return (g.layer_name(b), allc.get(g.column_name(b), g.column_name(b)))
         try:
             m = sorted(split(b) for b in md['blocks'])
             r = sorted((g.layer_name(b), g.column_name(b)) for b in rd['blocks'])
@@ -305,6 +308,12 @@ class ModelTie:
         self.loaded = 0
         self.stats = {}
         self.dead = False          # after a disagreement / an unmodelled situation this history is no longer compared
+        self.inv_checked = 0
+        self.mdk = None
+        self.mnames = {'node': set(), 'column': set()}
+        self.unstable = 0
+        self.cmap_all = {}         # model column name -> real column name, including columns deleted since
+        self.hyp = {}              # GeoInv clause -> [states where it held, states evaluated]
         self.loose = False         # an operation that iterates a Python set has fixed some order the model cannot know
         self.r2m_col, self.r2m_node = {}, {}
 
@@ -346,18 +355,61 @@ class ModelTie:
         return ('0' if any(k[0] in ('blocks', 'block-index') for k in nl) else '1') + \
                ('0' if any(k[0] in ('connections', 'connection-index') for k in nl) else '1')
 
+    @staticmethod
+    def surface_ties(cols, layers):
+        """a column surface that nearly (not exactly) coincides with a layer elevation: every later comparison of
+        the two may go either way in floating point"""
+        elev = sorted({l[f] for l in layers for f in ('bottom', 'centre', 'top')})
+        for c in cols:
+            s = c['surface']
+            if s is None:
+                continue
+            for e in elev:
+                d = abs(s - e)
+                if d != 0 and d <= Fraction(1, 10 ** 9) * max(1, abs(s), abs(e)):
+                    return True
+        return False
+
     def sync(self, g, cur, what, case):
         md = parse_dump(self.drv.ask('dump')[3:])
         rd = real_dump(g)
-        diffs, nmap, cmap, floating = compare(g, md, rd, self.fresh_flags(cur), self.loose)
+        if self.surface_ties(rd['cols'], rd['layers']) or self.surface_ties(md['cols'], md['layers']) \
+                or self.surface_ties(rd['cols'], md['layers']):
+            self.unstable += 1
+            self.dead = True
+            return False
+        diffs, nmap, cmap, floating = compare(g, md, rd, self.fresh_flags(cur), self.loose, self.cmap_all)
+        self.cmap_all.update(cmap)
         self.r2m_node = {v: k for k, v in nmap.items()}
         self.r2m_col = {v: k for k, v in cmap.items()}
+        self.mdk = {k for k, _ in md['dk']}
+        self.mnames = {'node': {k for k, _ in md['dn']}, 'column': {k for k, _ in md['dc']}}
         if floating:
             self.stats['floating-names'] = self.stats.get('floating-names', 0) + 1
         if diffs:
             self.disagreements.append(dict(facet='geo_ops', case=case, model='; '.join(diffs), impl='(see model field) after %s' % what))
             self.dead = True
-        return not diffs
+            return False
+        # the Lean statement of the invariant (Model/GeoInv.lean) against the Python oracle, clause by clause
+        mi = dict(x.split('=') for x in self.drv.ask('inv')[3:].split())
+        oi = {c: '0' if cur[c] else '1' for c in G.CLAUSES if c != 'namelists'}
+        nl = cur['namelists']
+        oi['blocks'] = '0' if any(k[0] in ('blocks', 'block-index', 'recompute-raises') for k in nl) else '1'
+        oi['connections'] = '0' if any(k[0] in ('connections', 'connection-index', 'recompute-raises') for k in nl) else '1'
+        oi['heap'] = '1'
+        self.inv_checked += 1
+        for c in oi:
+            self.hyp.setdefault(c, [0, 0])
+            self.hyp[c][1] += 1
+            self.hyp[c][0] += mi.get(c) == '1'
+        bad = sorted(c for c in oi if mi.get(c) != oi[c])
+        if bad:
+            self.disagreements.append(dict(facet='geo_inv', case=case,
+                                           model='GeoInv clauses %s' % {c: mi.get(c) for c in bad},
+                                           impl='oracle clauses %s after %s' % ({c: oi[c] for c in bad}, what)))
+            self.dead = True
+            return False
+        return True
 
     def start(self, g, inv, case):
         """call once with the start geometry"""
@@ -386,7 +438,22 @@ class ModelTie:
             self.stats['unmodelled:' + name] = self.stats.get('unmodelled:' + name, 0) + 1
             return None
         fc = lambda l: G.find_col(g, l)
+
+        def diverged(kind, new):
+            # after a renaming of generated names a deleted object's name is free on one side only: a new name
+            # chosen for the real geometry may be taken in the model (or the reverse).  Not comparable.
+            if (new in self.mnames[kind]) != (new in getattr(g, kind)):
+                self.dead = True
+                self.stats['name-divergence'] = self.stats.get('name-divergence', 0) + 1
+                return True
+            return False
         try:
+            if name == 'add_node' and diverged('node', a['name']):
+                return None
+            if name == 'add_column' and diverged('column', a['name']):
+                return None
+            if name == 'rename_column' and any(diverged('column', n) for n in a['new']):
+                return None
             if name == 'add_node':
                 return 'node %s %s %s' % (hexname(a['name']), rat(G.unhx(a['pos'][0])), rat(G.unhx(a['pos'][1])))
             if name == 'delete_node':
@@ -405,7 +472,11 @@ class ModelTie:
                 key = (c0, c1)
                 if (c0.name, c1.name) not in g.connection and (c1.name, c0.name) in g.connection:
                     key = (c1, c0)
-                return 'delete_connection %s %s' % (self.mcol(key[0]), self.mcol(key[1]))
+                a0, a1 = self.r2m_col.get(key[0].name, key[0].name), self.r2m_col.get(key[1].name, key[1].name)
+                # with floating names the model may hold this connection the other way round (min name first)
+                if self.mdk is not None and (a0, a1) not in self.mdk and (a1, a0) in self.mdk:
+                    a0, a1 = a1, a0
+                return 'delete_connection %s %s' % (hexname(a0), hexname(a1))
             if name == 'add_layer':
                 return 'layer %s %s %s %s' % (hexname(a['name']), rat(G.unhx(a['bottom'])), rat(G.unhx(a['centre'])), rat(G.unhx(a['top'])))
             if name == 'delete_layer':
@@ -485,6 +556,20 @@ class ModelTie:
                 self.sync(g, cur, 'reloading after a file round trip', case)
             else:
                 self.dead = True
+            return
+        # decisions taken on (nearly) equal floating-point numbers are not comparable: discard, never report
+        w = cmd.split()
+        probe = None
+        if name == 'refine':
+            k = int(w[2])
+            probe = 'unstable refine %s %s' % (w[1], ' '.join(w[3:3 + k]))
+        elif name == 'decompose_columns':
+            probe = 'unstable decompose ' + ' '.join(w[1:])
+        elif name == 'triangulate_column':
+            probe = None
+        if probe is not None and self.drv.ask(probe) == 'ok 1':
+            self.unstable += 1
+            self.dead = True
             return
         r = self.drv.ask(cmd)
         mexc = r[4:] if r.startswith('exc ') else None
